@@ -45,6 +45,48 @@ EngineBase* find_engine(const std::string& name) {
 
 using namespace verif;
 
+// ---- static_list ops (policy independent): nodes live in zero-initialised static storage
+struct LNode : yorel::yomm2::detail::static_list<LNode>::static_link {
+    LNode* prev() {
+        return prev_ptr;
+    }
+};
+static yorel::yomm2::detail::static_list<LNode> g_list;
+static LNode g_nodes[64];
+
+static bool list_op(const std::vector<std::string>& tok) {
+    auto idx = [](LNode* p) -> long { return p ? long(p - g_nodes) + 1 : 0; };
+    if (tok[0] == "lpush") {
+        g_list.push_back(g_nodes[std::stol(tok.at(1)) - 1]);
+    } else if (tok[0] == "lremove") {
+        g_list.remove(g_nodes[std::stol(tok.at(1)) - 1]);
+    } else if (tok[0] == "lclear") {
+        g_list.clear();
+    } else if (tok[0] == "ldump") {
+        std::vector<long> items;
+        for (auto& n : g_list) {
+            items.push_back(idx(&n));
+            if (items.size() > 200) {
+                break;
+            }
+        }
+        std::ostringstream os;
+        os << "list " << list(items) << " size=" << g_list.size() << " empty=" << (g_list.empty() ? 1 : 0)
+           << " links=[";
+        long maxn = std::stol(tok.size() > 1 ? tok[1] : "8");
+        const char* sep = "";
+        for (long i = 0; i < maxn; ++i) {
+            os << sep << idx(g_nodes[i].prev()) << "/" << idx(g_nodes[i].next());
+            sep = ",";
+        }
+        os << "]";
+        emit(os.str());
+    } else {
+        return false;
+    }
+    return true;
+}
+
 static std::vector<std::string> split(const std::string& line) {
     std::vector<std::string> tok;
     std::istringstream is(line);
@@ -85,6 +127,9 @@ static void run_script(const std::vector<std::string>& lines, int fd) {
                 seen[tok[1]] = true;
                 cur->reset();
             }
+        } else if (list_op(tok)) {
+        } else if (tok[0] == "echo") {
+            emit("@" + (tok.size() > 1 ? tok[1] : std::string()));
         } else if (tok[0] == "rng") {
             // model-only line
         } else if (!cur) {
